@@ -22,6 +22,7 @@ from .engine import (
     SObj,
     Closure,
     BoundMethod,
+    Handler,
     is_sym,
     to_z3,
     as_real,
@@ -539,7 +540,7 @@ def term_attr(it, t, name):
     if name == "imag":
         return 0
     if name == "is_integer" and z3.is_real(t):
-        return BoundMethod(t, lambda it_, self_: z3.IsInt(self_))
+        return BoundMethod(t, Handler(lambda it_, self_: z3.IsInt(self_)))
     if name == "numerator" and z3.is_int(t):
         return t
     if name == "denominator" and z3.is_int(t):
@@ -655,7 +656,7 @@ def str_method(name, probe=False):
         if probe:
             return None
         raise Undecided(f"str.{name} on a symbolic string")
-    return lambda it, s, *a, **k: _wrap_str(fn(it, s, *a, **k))
+    return Handler(lambda it, s, *a, **k: _wrap_str(fn(it, s, *a, **k)), 'str.' + name)
 
 
 def _wrap_str(v):
@@ -687,7 +688,7 @@ def container_method(tp, name):
                 except Exception as ex:
                     raise PyRaise(type(ex), ex.args)
 
-            return call
+            return Handler(call, 'list.' + name)
         if name == "index":
 
             def index(it, lst, x, *a):
@@ -696,7 +697,7 @@ def container_method(tp, name):
                         return i
                 raise PyRaise(ValueError, ("x not in list",))
 
-            return index
+            return Handler(index, 'list.index')
         if name == "count":
 
             def count(it, lst, x):
@@ -706,14 +707,14 @@ def container_method(tp, name):
                         n += 1
                 return n
 
-            return count
+            return Handler(count, 'list.count')
         if name == "sort":
 
             def sort(it, lst, key=None, reverse=False):
                 lst[:] = h_sorted(it, lst, key=key, reverse=reverse)
                 return None
 
-            return sort
+            return Handler(sort, 'list.sort')
     if tp is dict:
         if name in _DICT_OK:
 
@@ -729,5 +730,5 @@ def container_method(tp, name):
                     return list(r)
                 return r
 
-            return call
+            return Handler(call, 'dict.' + name)
     raise Undecided(f"{tp.__name__}.{name} on a container holding symbolic values")
